@@ -197,8 +197,31 @@ def rule_alloc(chk, prefix="C02"):
     rng = cfg.count_range(cfg.entry, [cfg.exit], lambda n: 1 if n in stores else 0)
     if rng != (1, 1):
         problems.append("the counter is advanced %s times per call" % (rng,))
-    for n in stores:
+    def _is_first(v):
+        return isinstance(v, ast.Call) and tchild in ctx.targets(ntl, v) and isinstance(v.func, ast.Attribute) and common.is_self_attr(v.func.value, "_task_level")
+
+    def _is_next(v):
+        return isinstance(v, ast.Call) and tnext in ctx.targets(ntl, v) and isinstance(v.func, ast.Attribute) and common.is_self_attr(v.func.value, "_last_child")
+
+    def _none_polarity(e):
+        """+1: e is true exactly when no position was handed out yet; -1: the opposite; 0: other"""
+        if isinstance(e, ast.UnaryOp) and isinstance(e.op, ast.Not) and common.is_self_attr(e.operand, "_last_child"):
+            return 1
+        if common.is_self_attr(e, "_last_child"):
+            return -1
+        if isinstance(e, ast.Compare) and len(e.ops) == 1 and common.is_self_attr(e.left, "_last_child") \
+                and isinstance(e.comparators[0], ast.Constant) and e.comparators[0].value is None:
+            return 1 if isinstance(e.ops[0], (ast.Is, ast.Eq)) else -1
+        return 0
+    for n in list(stores):
         v = n.ast.value
+        if isinstance(v, ast.IfExp):
+            pol = _none_polarity(v.test)
+            first, nxt = (v.body, v.orelse) if pol == 1 else (v.orelse, v.body)
+            if pol == 0 or not (_is_first(first) and _is_next(nxt)):
+                problems.append("counter set by %s: not `child()` exactly on first use and `next_sibling()` afterwards" % unparse(v)[:70])
+            stores_done = True
+            continue
         tg = ctx.targets(ntl, v) if isinstance(v, ast.Call) else []
         guards = cfg.guards_of(n)
 
